@@ -168,10 +168,404 @@ Proof.
   unfold sum_squared, sum_list. rops. induction l as [|[[w t] v] l IH].
   - reflexivity.
   - cbn [fun_array map fold_left merit_spec]. rewrite fold_add_shift.
-    unfold fun_array in IH. rewrite IH. unfold op_fun. kunf. lra.
+    unfold fun_array in IH. rewrite IH. unfold op_fun. kunf. ring.
 Qed.
 (** the objective handed to SciPy is that sum (the NaN guard never fires on reals) *)
 Theorem fun_is_merit (l : list (R * R * R)) : @fun_guard ROps (@sum_squared ROps l) = merit_spec l.
 Proof. unfold fun_guard. rops. apply merit_is_sum. Qed.
 Lemma merit_nonneg (l : list (R * R * R)) : 0 <= merit_spec l.
-Proof. induction l as [|[[w t] v] l IH]; cbn [merit_spec]; [lra|]. nra. Qed.
+Proof. induction l as [|[[w t] v] l IH]; cbn [merit_spec]; [lra|]. pose proof (pow2_ge_0 (w * (v - t))). lra. Qed.
+
+Lemma Forall2_map_in {A B} (P : A -> B -> Prop) (f : A -> B) (l : list A) :
+  Forall2 P l (map f l) -> forall v, In v l -> P v (f v).
+Proof.
+  induction l as [|w ws IH]; intros H v Hv; [contradiction|].
+  cbn [map] in H. inversion H; subst. destruct Hv as [->|Hv]; auto.
+Qed.
+
+(** ** 5. The optimise / undo state machine *)
+Section Machine.
+  (** Optic.update() (pickups, then solves) is an arbitrary function of the lens that
+      (U1) writes only the pickup / solve targets and (U2) computes them from the rest of the
+      lens (no hysteresis).  [upd_pickups_frame] / [upd_pickups_dep] below show that the pickup
+      manager satisfies both when no pickup reads another pickup's target. *)
+  Variable upd : store -> store.
+  Variable tgt : coord -> bool.
+  Hypothesis U1 : forall (s : store) c, tgt c = false -> upd s c = s c.
+  Hypothesis U2 : forall s s' : store, (forall c, tgt c = false -> s c = s' c) -> upd s = upd s'.
+
+  Variable vars : list var.
+  Hypothesis Vok : Forall var_ok vars.
+  Hypothesis Vnodup : NoDup (map (@vcoord ROps) vars).                     (* distinct lens parameters *)
+  Hypothesis Vfree : forall v, In v vars -> tgt (vcoord v) = false.   (* no variable is a pickup/solve target *)
+
+  Notation n := (length vars).
+  Notation eval_point := (eval_point upd vars).
+  Notation run_trace := (run_trace upd vars).
+  Notation trace := (@trace ROps).
+
+  (** pickups and solves are satisfied = update() has nothing left to do *)
+  Definition sat (s : store) : Prop := upd s = s.
+  (** same prescription outside the variables and the pickup/solve targets *)
+  Definition frame_eq (s s' : store) : Prop :=
+    forall c, tgt c = false -> ~ In c (map (@vcoord ROps) vars) -> s c = s' c.
+
+  Lemma sat_upd s : sat (upd s).
+  Proof. unfold sat. apply U2. intros c Hc. apply U1; auto. Qed.
+
+  Lemma frame_refl s : frame_eq s s.  Proof. intros c _ _; reflexivity. Qed.
+  Lemma frame_sym s s' : frame_eq s s' -> frame_eq s' s.
+  Proof. intros H c H1 H2. symmetry. apply H; auto. Qed.
+  Lemma frame_trans s s' s'' : frame_eq s s' -> frame_eq s' s'' -> frame_eq s s''.
+  Proof. intros H H' c H1 H2. rewrite H by auto. apply H'; auto. Qed.
+
+  (** *** setv / getv on arbitrary variable lists *)
+  Lemma setv_cons v vs x xs (s : store) : setv (v :: vs) (x :: xs) s = setv vs xs (var_set v x s).
+  Proof. reflexivity. Qed.
+
+  Lemma setv_frame vs : forall x (s : store) c, ~ In c (map (@vcoord ROps) vs) -> setv vs x s c = s c.
+  Proof.
+    induction vs as [|v vs IH]; intros x s c Hc.
+    - reflexivity.
+    - destruct x as [|a x]; [reflexivity|]. rewrite setv_cons. rewrite IH.
+      + unfold var_set. apply put_other. intros E. apply Hc. left. auto.
+      + intros Hin. apply Hc. right. exact Hin.
+  Qed.
+
+  (** the value written at a coordinate only depends on the vector (last write wins in both lenses) *)
+  Lemma setv_determined vs : forall x (s s' : store) c, length x = length vs ->
+    (~ In c (map (@vcoord ROps) vs) -> s c = s' c) -> setv vs x s c = setv vs x s' c.
+  Proof.
+    induction vs as [|v vs IH]; intros x s s' c Hlen H.
+    - destruct x; [|discriminate]. cbn. apply H. intros [].
+    - destruct x as [|a x]; [discriminate|]. rewrite !setv_cons. apply IH.
+      + cbn in Hlen. injection Hlen; auto.
+      + intros Hnot. unfold var_set, put. destruct (coord_eqb (vcoord v) c) eqn:E; auto.
+        apply H. intros [Hin|Hin]; [|contradiction].
+        rewrite <- Hin, coord_eqb_refl in E. discriminate.
+  Qed.
+
+  Lemma getv_setv vs : forall (x : list R) (s : store), Forall var_ok vs -> NoDup (map (@vcoord ROps) vs) ->
+    length x = length vs -> getv vs (setv vs x s) = x.
+  Proof.
+    induction vs as [|v vs IH]; intros x s Hok Hnd Hlen.
+    - destruct x; [reflexivity|discriminate].
+    - destruct x as [|a x]; [discriminate|]. inversion Hok; subst. inversion Hnd; subst.
+      rewrite setv_cons. cbn [getv map]. f_equal.
+      + unfold var_get. rewrite setv_frame by assumption. fold (var_get (var_set v a s) v).
+        apply set_get; assumption.
+      + apply IH; auto.
+  Qed.
+
+  Lemma setv_getv vs : forall (s : store), Forall var_ok vs -> setv vs (getv vs s) s = s.
+  Proof.
+    induction vs as [|v vs IH]; intros s Hok.
+    - reflexivity.
+    - inversion Hok; subst. cbn [getv map]. rewrite setv_cons. rewrite set_current by assumption.
+      apply IH; assumption.
+  Qed.
+
+  Lemma getv_length vs (s : store) : length (getv vs s) = length vs.
+  Proof. unfold getv. apply map_length. Qed.
+
+  Lemma getv_ext vs (s s' : store) : (forall v, In v vs -> s (vcoord v) = s' (vcoord v)) -> getv vs s = getv vs s'.
+  Proof.
+    intros H. unfold getv. apply map_ext_in. intros v Hv. unfold var_get. rewrite (H v Hv). reflexivity.
+  Qed.
+
+  (** update() does not move a variable *)
+  Lemma getv_upd (s : store) : getv vars (upd s) = getv vars s.
+  Proof. apply getv_ext. intros v Hv. apply U1. apply Vfree; assumption. Qed.
+
+  (** *** one objective evaluation *)
+  Lemma eval_point_getv x (s : store) : length x = n -> getv vars (eval_point x s) = x.
+  Proof. intros Hlen. unfold M_C14.eval_point. rewrite getv_upd. apply getv_setv; assumption. Qed.
+
+  Lemma eval_point_sat x s : sat (eval_point x s).
+  Proof. apply sat_upd. Qed.
+
+  Lemma eval_point_frame x s : frame_eq s (eval_point x s).
+  Proof.
+    intros c H1 H2. unfold M_C14.eval_point. rewrite U1 by assumption. rewrite setv_frame by assumption. reflexivity.
+  Qed.
+
+  (** no history: the lens after evaluating x is the same from every lens with this prescription *)
+  Lemma eval_point_indep x s s' : length x = n -> frame_eq s s' -> eval_point x s = eval_point x s'.
+  Proof.
+    intros Hlen Hf. unfold M_C14.eval_point. apply U2. intros c Hc.
+    apply setv_determined; [assumption|]. intros Hnot. apply Hf; assumption.
+  Qed.
+
+  Lemma eval_point_current s : sat s -> eval_point (getv vars s) s = s.
+  Proof. intros Hs. unfold M_C14.eval_point. rewrite setv_getv by assumption. exact Hs. Qed.
+
+  (** well-formed traces: every evaluated point has one entry per variable *)
+  Definition wf_trace (tr : trace) : Prop := Forall (fun e : bool * list R => length (snd e) = n) tr.
+
+  Lemma run_trace_frame tr : forall s, frame_eq s (run_trace tr s).
+  Proof.
+    induction tr as [|[b x] tr IH]; intros s.
+    - apply frame_refl.
+    - cbn [M_C14.run_trace fold_left fst snd]. destruct b.
+      + eapply frame_trans; [apply eval_point_frame | apply IH].
+      + apply IH.
+  Qed.
+
+  Lemma run_trace_sat tr : forall s, sat s -> sat (run_trace tr s).
+  Proof.
+    induction tr as [|[b x] tr IH]; intros s Hs.
+    - exact Hs.
+    - cbn [M_C14.run_trace fold_left fst snd]. destruct b; apply IH; [apply eval_point_sat | exact Hs].
+  Qed.
+
+  Lemma run_trace_app tr tr' s : run_trace (tr ++ tr') s = run_trace tr' (run_trace tr s).
+  Proof. unfold M_C14.run_trace. apply fold_left_app. Qed.
+
+  (** *** optimize() as written leaves the lens at the last point evaluated in the parent process *)
+  Theorem impl_state_is_last_parent_eval tr tr' x xstar s :
+    length x = n -> Forall (fun e : bool * list R => fst e = false) tr' ->
+    getv vars (optimize_impl upd vars (tr ++ (true, x) :: tr') xstar s) = x.
+  Proof.
+    intros Hlen Hw. unfold optimize_impl. rewrite run_trace_app. cbn [M_C14.run_trace fold_left fst snd].
+    assert (Hid : forall s0, fold_left (fun (s1 : store) (e : bool * list R) =>
+                      if fst e then eval_point (snd e) s1 else s1) tr' s0 = s0).
+    { induction Hw as [|[b y] tr' Hb _ IH]; intros s0; [reflexivity|].
+      cbn [fold_left]. cbn in Hb. rewrite Hb. apply IH. }
+    rewrite Hid. apply eval_point_getv. exact Hlen.
+  Qed.
+  (** ... and does not move it at all when every evaluation ran in a worker process *)
+  Theorem impl_state_workers_only tr xstar s :
+    Forall (fun e : bool * list R => fst e = false) tr -> optimize_impl upd vars tr xstar s = s.
+  Proof.
+    intros Hw. unfold optimize_impl. revert s.
+    induction Hw as [|[b y] tr Hb _ IH]; intros s; [reflexivity|].
+    cbn [M_C14.run_trace fold_left]. cbn in Hb. rewrite Hb. apply IH.
+  Qed.
+
+  (** *** the repaired optimize(): the lens is in the state of the returned solution, for every
+      evaluation schedule and every split of the evaluations between parent and workers *)
+  Theorem fixed_state_is_returned_solution tr xstar s :
+    length xstar = n -> getv vars (optimize_fixed upd vars tr xstar s) = xstar.
+  Proof. intros Hlen. unfold optimize_fixed. apply eval_point_getv. exact Hlen. Qed.
+
+  Theorem fixed_pickups_solves_satisfied tr xstar s : sat (optimize_fixed upd vars tr xstar s).
+  Proof. unfold optimize_fixed. apply eval_point_sat. Qed.
+
+  (** the lens the optimiser returns is the lens on which x* was evaluated, whichever process
+      evaluated it (any lens [s'] with the prescription of the start) *)
+  Theorem fixed_lens_is_evaluated_lens tr xstar s s' :
+    length xstar = n -> frame_eq s s' ->
+    optimize_fixed upd vars tr xstar s = eval_point xstar s'.
+  Proof.
+    intros Hlen Hf. unfold optimize_fixed. apply eval_point_indep; [assumption|].
+    eapply frame_trans; [apply frame_sym, run_trace_frame | exact Hf].
+  Qed.
+
+  (** re-evaluating the merit function reproduces the returned objective, and it is not worse than at the start.
+      [fstar] / [f0]: the values the objective returned when x* / x0 were evaluated (contract of the
+      external minimiser, validated per front end by the harness: x* and x0 were evaluated, fstar <= f0) *)
+  Variable ops : list (@operand ROps).
+  Notation M := (@merit ROps ops).
+
+  Theorem fixed_merit_is_returned_objective tr xstar fstar s s' :
+    length xstar = n -> frame_eq s s' ->
+    fstar = fun_guard (M (eval_point xstar s')) ->
+    fun_guard (M (optimize_fixed upd vars tr xstar s)) = fstar.
+  Proof. intros Hlen Hf ->. rewrite (fixed_lens_is_evaluated_lens tr xstar s s' Hlen Hf). reflexivity. Qed.
+
+  Theorem fixed_not_worse tr xstar fstar f0 s s' s'' :
+    length xstar = n -> sat s -> frame_eq s s' -> frame_eq s s'' ->
+    fstar = M (eval_point xstar s') ->
+    f0 = M (eval_point (getv vars s) s'') ->
+    fstar <= f0 ->
+    M (optimize_fixed upd vars tr xstar s) <= M s.
+  Proof.
+    intros Hlen Hs Hf Hf' Hstar H0 Hle.
+    rewrite (fixed_lens_is_evaluated_lens tr xstar s s' Hlen Hf). rewrite <- Hstar.
+    rewrite <- (eval_point_indep (getv vars s) s s'' (getv_length vars s) Hf') in H0.
+    rewrite eval_point_current in H0 by assumption. rewrite <- H0. exact Hle.
+  Qed.
+
+  (** every bounded variable lies within its bounds (in lens units), given that SciPy respects
+      the bounds it was handed and that these are the specified ones *)
+  Theorem fixed_within_bounds (tr : trace) (xstar : list R) (s : store) :
+    length xstar = n ->
+    Forall2 (fun (v : var) (x : R) => within (bounds_spec v) x) vars xstar ->
+    Forall (fun v : var => raw_within v (optimize_fixed upd vars tr xstar s (vcoord v))) vars.
+  Proof.
+    intros Hlen HB.
+    pose proof (fixed_state_is_returned_solution tr xstar s Hlen) as Hst.
+    set (sf := optimize_fixed upd vars tr xstar s) in *.
+    unfold getv in Hst.
+    assert (HB' : Forall2 (fun (v : var) (x : R) => within (bounds_spec v) x) vars (map (var_get sf) vars)) by (rewrite Hst; exact HB).
+    clear Hst HB. apply Forall_forall. intros v Hv.
+    assert (Hw : within (bounds_spec v) (var_get sf v)).
+    { exact (Forall2_map_in _ _ _ HB' v Hv). }
+    apply bounds_units in Hw; [exact Hw|]. rewrite Forall_forall in Vok. apply Vok; assumption.
+  Qed.
+
+  (** *** undo *)
+  Lemma undo_fixed_restores tr xstar s :
+    sat s -> length xstar = n -> undo_fixed upd vars (getv vars s) (optimize_fixed upd vars tr xstar s) = s.
+  Proof.
+    intros Hs Hlen. unfold undo_fixed. fold (eval_point (getv vars s) (optimize_fixed upd vars tr xstar s)).
+    rewrite <- (eval_point_indep (getv vars s) s _ (getv_length vars s)).
+    - apply eval_point_current; assumption.
+    - unfold optimize_fixed. eapply frame_trans; [apply run_trace_frame | apply eval_point_frame].
+  Qed.
+
+  (** undo() as written restores everything except the pickup / solve targets *)
+  Lemma undo_impl_restores_off_targets tr xstar s c :
+    tgt c = false -> undo_impl vars (getv vars s) (optimize_impl upd vars tr xstar s) c = s c.
+  Proof.
+    intros Hc. unfold undo_impl, optimize_impl.
+    transitivity (setv vars (getv vars s) s c).
+    - apply setv_determined; [apply getv_length|]. intros Hnot. symmetry. apply run_trace_frame; assumption.
+    - rewrite setv_getv by assumption. reflexivity.
+  Qed.
+
+  (** *** all sequences optimise / undo / optimise *)
+  Definition wf_cmd (c : @cmd ROps) : Prop :=
+    match c with Optimize _ tr xstar => length xstar = n | Undo => True end.
+  Definition wf_stack (st : @opt_state ROps) : Prop := Forall (fun x : list R => length x = n) (snd st).
+
+  Lemma step_fixed_inv st c : wf_cmd c -> sat (fst st) -> wf_stack st ->
+    sat (fst (step_fixed upd vars st c)) /\ wf_stack (step_fixed upd vars st c).
+  Proof.
+    intros Hc Hs Hw. destruct st as [s stk]. unfold step_fixed, step_gen, wf_stack in *. cbn [fst snd] in *.
+    destruct c as [fe tr xstar|].
+    - destruct (needs_bounds fe && negb (forallb bounded vars)); cbn [fst snd]; split;
+        try (constructor; [apply getv_length|assumption]); auto.
+      apply fixed_pickups_solves_satisfied.
+    - destruct stk as [|x0 rest]; cbn [fst snd]; [split; assumption|].
+      inversion Hw; subst. split; [|assumption]. unfold undo_fixed. apply sat_upd.
+  Qed.
+
+  Lemma exec_fixed_inv cs : forall st, Forall wf_cmd cs -> sat (fst st) -> wf_stack st ->
+    sat (fst (exec_fixed upd vars cs st)) /\ wf_stack (exec_fixed upd vars cs st).
+  Proof.
+    induction cs as [|c cs IH]; intros st Hcs Hs Hw.
+    - split; assumption.
+    - inversion Hcs; subst. unfold exec_fixed. cbn [fold_left].
+      destruct (step_fixed_inv st c) as [Hs' Hw']; auto. apply IH; assumption.
+  Qed.
+
+  (** whatever happened before, optimise followed by undo gives back the lens (and the undo stack) *)
+  Theorem undo_restores cs fe tr xstar s0 :
+    Forall wf_cmd cs -> sat s0 -> length xstar = n ->
+    exec_fixed upd vars (cs ++ [Optimize fe tr xstar; Undo]) (s0, []) = exec_fixed upd vars cs (s0, []).
+  Proof.
+    intros Hcs Hs0 Hlen. unfold exec_fixed. rewrite fold_left_app.
+    fold (exec_fixed upd vars cs (s0, [])).
+    destruct (exec_fixed_inv cs (s0, [])) as [Hs _]; auto; [constructor|].
+    destruct (exec_fixed upd vars cs (s0, [])) as [s stk]. cbn [fst] in Hs.
+    cbn [fold_left]. unfold step_fixed at 2. unfold step_gen. cbn [fst snd].
+    destruct (needs_bounds fe && negb (forallb bounded vars)).
+    - unfold step_fixed, step_gen. cbn [fst snd]. f_equal.
+      unfold undo_fixed. fold (eval_point (getv vars s) s). apply eval_point_current; assumption.
+    - unfold step_fixed, step_gen. cbn [fst snd]. f_equal. apply undo_fixed_restores; assumption.
+  Qed.
+
+  (** the code as written: the same, restricted to what is not a pickup / solve target *)
+  Theorem undo_restores_impl_partial fe tr xstar s stk c :
+    tgt c = false ->
+    fst (exec_impl upd vars [Optimize fe tr xstar; Undo] (s, stk)) c = s c
+    /\ snd (exec_impl upd vars [Optimize fe tr xstar; Undo] (s, stk)) = stk.
+  Proof.
+    intros Hc. unfold exec_impl. cbn [fold_left]. unfold step_impl, step_gen. cbn [fst snd].
+    destruct (needs_bounds fe && negb (forallb bounded vars)); cbn [fst snd].
+    - split; [|reflexivity]. unfold undo_impl. rewrite setv_getv by assumption. reflexivity.
+    - split; [|reflexivity]. apply undo_impl_restores_off_targets; assumption.
+  Qed.
+End Machine.
+
+(** ** 6. The pickup manager satisfies the two hypotheses on update() *)
+Section Pickups.
+  Notation pickup := (@pickup ROps).
+  Variable pks : list pickup.
+  Definition pk_target (c : coord) : bool := existsb (fun p : pickup => coord_eqb (pk_tgt p) c) pks.
+  (** no pickup reads a parameter that is itself written by a pickup (no chains) *)
+  Definition flat (l : list pickup) : Prop := forall p, In p l -> ~ In (pk_src p) (map (@pk_tgt ROps) l).
+
+  Lemma pk_target_false c : pk_target c = false <-> ~ In c (map (@pk_tgt ROps) pks).
+  Proof.
+    unfold pk_target. split.
+    - intros H Hin. apply in_map_iff in Hin. destruct Hin as [p [Hp Hin]].
+      assert (E : existsb (fun p : pickup => coord_eqb (pk_tgt p) c) pks = true).
+      { apply existsb_exists. exists p. split; auto. apply coord_eqb_eq; auto. }
+      congruence.
+    - intros H. destruct (existsb _ pks) eqn:E; auto. apply existsb_exists in E.
+      destruct E as [p [Hin Hp]]. apply coord_eqb_eq in Hp. exfalso. apply H. apply in_map_iff. exists p; auto.
+  Qed.
+
+  Lemma upd_pickups_frame_gen (l : list pickup) : forall (s : store) c,
+    ~ In c (map (@pk_tgt ROps) l) -> upd_pickups l s c = s c.
+  Proof.
+    induction l as [|[[[src tg] a] b] l IH]; intros s c Hc; [reflexivity|].
+    unfold upd_pickups. cbn [fold_left apply_pickup]. fold (upd_pickups l (put s tg (add (mul a (s src)) b))).
+    rewrite IH.
+    - apply put_other. intros E. apply Hc. left. exact E.
+    - intros Hin. apply Hc. right. exact Hin.
+  Qed.
+
+  Lemma upd_pickups_dep_gen (l : list pickup) : forall (s s' : store), flat l ->
+    (forall c, ~ In c (map (@pk_tgt ROps) l) -> s c = s' c) -> forall c, upd_pickups l s c = upd_pickups l s' c.
+  Proof.
+    induction l as [|[[[src tg] a] b] l IH]; intros s s' Hfl H c.
+    - cbn. apply H. intros [].
+    - unfold upd_pickups. cbn [fold_left apply_pickup].
+      fold (upd_pickups l (put s tg (add (mul a (s src)) b))).
+      fold (upd_pickups l (put s' tg (add (mul a (s' src)) b))).
+      assert (Hsrc : s src = s' src).
+      { apply H. apply (Hfl (src, tg, a, b)). left; reflexivity. }
+      rewrite Hsrc. apply IH.
+      + intros p Hp Hin. apply (Hfl p); [right; exact Hp|]. right. exact Hin.
+      + intros d Hd. unfold put. destruct (coord_eqb tg d) eqn:E; auto.
+        apply H. intros [Hin|Hin]; [|contradiction].
+        cbn in Hin. rewrite Hin, coord_eqb_refl in E. discriminate.
+  Qed.
+
+  Theorem upd_pickups_frame (s : store) c : pk_target c = false -> upd_pickups pks s c = s c.
+  Proof. intros H. apply upd_pickups_frame_gen. apply pk_target_false; exact H. Qed.
+  Theorem upd_pickups_dep (s s' : store) : flat pks ->
+    (forall c, pk_target c = false -> s c = s' c) -> upd_pickups pks s = upd_pickups pks s'.
+  Proof.
+    intros Hfl H. apply functional_extensionality. apply upd_pickups_dep_gen; auto.
+    intros c Hc. apply H. apply pk_target_false; exact Hc.
+  Qed.
+End Pickups.
+
+(** ** 7. The hypotheses are satisfiable: a singlet whose second radius picks up minus the first,
+    first radius and thickness variable (scaled, bounded), one operand *)
+Section Instance.
+  Let c_r1 : coord := (0, 1, 0, 0)%Z.
+  Let c_r2 : coord := (0, 2, 0, 0)%Z.
+  Let v_r1 : var := @mkVar ROps KRadius 1 0 0 true (Some 20) (Some 200).
+  Let v_t2 : var := @mkVar ROps KThickness 2 0 0 true (Some 10) (Some 150).
+  Let pks : list (@pickup ROps) := [(c_r1, c_r2, -1, 0)].
+  Let s0 : store := fun c => if coord_eqb c c_r1 then 50 else if coord_eqb c c_r2 then -50 else 45.
+
+  Example instance_hypotheses :
+    Forall var_ok [v_r1; v_t2] /\ NoDup (map (@vcoord ROps) [v_r1; v_t2])
+    /\ (forall v, In v [v_r1; v_t2] -> pk_target pks (vcoord v) = false)
+    /\ flat pks /\ sat (upd_pickups pks) s0.
+  Proof.
+    repeat split.
+    - repeat constructor; unfold var_ok; cbn; discriminate.
+    - repeat constructor; cbn; intuition discriminate.
+    - intros v [<-|[<-|[]]]; reflexivity.
+    - intros p [<-|[]]. cbn. intros [H|[]]. discriminate.
+    - unfold sat. apply functional_extensionality. intros c. unfold pks, upd_pickups. cbn [fold_left apply_pickup].
+      unfold put. destruct (coord_eqb c_r2 c) eqn:E; auto. apply coord_eqb_eq in E. subst c.
+      unfold s0. cbn. rops. lra.
+  Qed.
+
+  (** the theorems apply: whatever SciPy evaluated, the repaired optimise leaves the lens at x* *)
+  Example instance_state tr s :
+    getv [v_r1; v_t2] (optimize_fixed (upd_pickups pks) [v_r1; v_t2] tr [0; 3] s) = [0; 3].
+  Proof.
+    destruct instance_hypotheses as (Hok & Hnd & Hfree & Hflat & _).
+    apply (fixed_state_is_returned_solution (upd_pickups pks) (pk_target pks)); auto.
+    intros; apply upd_pickups_frame; assumption.
+  Qed.
+End Instance.
